@@ -440,6 +440,26 @@ def concretise(case: dict, v: int, segs: Segments, rng, static: bool = False) ->
         off, ln = store(payload(0 if v % 2 else 2))
         md[K_OFF], md[K_LEN] = str(off).encode(), str(ln).encode()
         label["stored_rows"] = 0 if v % 2 else 2
+    elif ptr == "mismatch":
+        # a live allocation whose bytes are not a batch of the pointer batch's schema
+        f0 = schema.field(0) if len(schema) else None
+        if f0 is not None and pa.types.is_dictionary(f0.type):
+            # (dictionary path: the region is decoded under the inline schema) one more column in front
+            good1 = payload(1) if case["cols"] == "match" else _batch(schema, 1)
+            other = pa.RecordBatch.from_arrays([pa.array(["1" * (1 + v % 3)])] + list(good1.columns),
+                                               names=["z"] + list(schema.names))
+        elif f0 is not None and pa.types.is_string(f0.type) and v % 2 == 0:
+            # a string column whose offsets point far outside its data buffer
+            import struct as _st
+
+            arr = pa.Array.from_buffers(f0.type, 1, [None, pa.py_buffer(_st.pack("<ii", 0, 1 << 20)), pa.py_buffer(b"ab")])
+            other = pa.RecordBatch.from_arrays([arr] + [pa.array([_value(f.type, 0)], f.type) for f in list(schema)[1:]],
+                                               schema=schema)
+        else:
+            other = pa.record_batch({"q": pa.array([1.5, 2.5]), "r": pa.array(["a", "b"])})
+        off, ln = store(other)
+        md[K_OFF], md[K_LEN] = str(off).encode(), str(ln).encode()
+        label["stored"] = str(other.schema).replace("\n", "; ")[:80]
     elif ptr == "garbage":
         g = [(b"xyz", b"100"), (b"", b"100"), (b"-5", b"100"), (b"\xff", b"100"), (b"1.5", b"100"), (b"65536", b"abc"),
              (b"65536", None), (b"65536", b"\xff"), (b"0x10000", b"16")][v % 9]
